@@ -8,8 +8,9 @@ NET = "crates/dns-resolver/src/util/net.rs"
 UTYPES = "crates/dns-resolver/src/util/types.rs"
 
 TRUSTED = TRUSTED_COMMON + [
-    "R9 socket stand-ins: UdpSocket::send/send_to record the datagram handed over (uninterpreted `udp_sent`), TcpStream::write_all appends to a ghost byte log (or fails, leaving a prefix of it and setting the ghost `failed`), read_u16 / read_buf deliver arbitrary data, any number of octets at a time, EOF or an error at any point (ghost `prefix`, `inp`); no interleaving between awaits is modelled",
+    "R9 socket stand-ins: UdpSocket::send/send_to append the datagram and its destination to a ghost log, or fail, sending nothing and setting the ghost `failed` (R52: borrowed mutably for that, tokio's take `&self`); the reply channel of the UDP listener (mpsc::Sender) likewise records what is queued; TcpStream::write_all appends to a ghost byte log (or fails, leaving a prefix of it and setting the ghost `failed`), read_u16 / read_buf deliver arbitrary data, any number of octets at a time, EOF or an error at any point (ghost `prefix`, `inp`); no interleaving between awaits is modelled",
     "BytesMut::with_capacity(n) has capacity exactly n and tokio's read_buf fills a buffer that is not full at most to its capacity (it reads into BytesMut::chunk_mut(), the spare capacity): used to show a TCP message body handed to the decoder has exactly the announced length (<= 65535)",
+    "R45 (UDP): the block listen_udp_task hands to tokio::spawn for each datagram is read as `udp_request__(args, bytes, reply__, peer) -> ReplySender`, the select! arm that sends a finished reply as `udp_reply__(sock__, message, peer) -> UdpSocket` (block text verbatim; added: the `let mut` rebinding at entry, the captured value as the result); the Prometheus timer is a stand-in value; not covered: select! itself, recv_from and the copy of the datagram out of the receive buffer (`BytesMut::from(&buf[..size])`), the bounded channel between the two blocks",
     "R45: the block listen_tcp_task hands to tokio::spawn for each accepted connection is read as the body of `tcp_connection__(args, conn__, peer) -> TcpStream` (block text verbatim; added: `let mut stream = conn__;` at entry and the expression `stream` at the end, so that the contract can speak about what was written)",
     "Message::to_octets: contract assumed here (>= 12 octets, header octets as header_flags1/2, a message without records always serialises), proved in unit wire_codec under msg_names_wf (the DomainName type invariant, C16)",
     "Message::from_octets: contract assumed here, proved in unit wire_decode",
@@ -21,25 +22,28 @@ BU = "broadcast use group_eq_axioms;"
 
 NET_STANDINS = """
 // ---- R9: stand-ins for tokio sockets (same method names; effects recorded so that contracts can speak about them)
-pub struct UdpSocket { u: u8 }
+// log: every datagram handed to the socket so far with its destination (None: the connected peer); failed: a send returned an error
+pub struct UdpSocket { pub log: Ghost<Seq<(Seq<u8>, Option<SocketAddr>)>>, pub failed: Ghost<bool> }
 // log: every octet written to the peer so far; failed: a write returned an error; prefix: the length prefix of the current message, once
 // read; inp: the octets of its body received so far
 pub struct TcpStream { pub log: Ghost<Seq<u8>>, pub failed: Ghost<bool>, pub prefix: Ghost<Option<u16>>, pub inp: Ghost<Seq<u8>> }
 pub struct IoError { e: u8 }
 pub uninterp spec fn last_read(s: &TcpStream) -> Seq<u8>;
-pub uninterp spec fn udp_sent(sock: &UdpSocket, data: Seq<u8>) -> bool;
 pub open spec fn same_out(a: &TcpStream, b: &TcpStream) -> bool { a.log@ == b.log@ && a.failed@ == b.failed@ }
 pub open spec fn same_in(a: &TcpStream, b: &TcpStream) -> bool { a.prefix@ == b.prefix@ && a.inp@ == b.inp@ }
 impl UdpSocket {
+    // R52: tokio's send / send_to take `&self`; the stand-in is borrowed mutably so that it can record the datagram
     #[verifier::external_body]
-    pub async fn send(&self, buf: &[u8]) -> (r: Result<usize, IoError>)
+    pub async fn send(&mut self, buf: &[u8]) -> (r: Result<usize, IoError>)
         requires buf@.len() <= 512, // [C09:udp_reply_at_most_512_bytes]
-        ensures r is Ok ==> udp_sent(self, buf@),
+        ensures r is Ok ==> final(self).log@ == old(self).log@.push((buf@, None::<SocketAddr>)) && final(self).failed@ == old(self).failed@,
+            r is Err ==> final(self).log@ == old(self).log@ && final(self).failed@,
     { unimplemented!() }
     #[verifier::external_body]
-    pub async fn send_to(&self, buf: &[u8], target: SocketAddr) -> (r: Result<usize, IoError>)
+    pub async fn send_to(&mut self, buf: &[u8], target: SocketAddr) -> (r: Result<usize, IoError>)
         requires buf@.len() <= 512, // [C09:udp_reply_at_most_512_bytes]
-        ensures r is Ok ==> udp_sent(self, buf@),
+        ensures r is Ok ==> final(self).log@ == old(self).log@.push((buf@, Some(target))) && final(self).failed@ == old(self).failed@,
+            r is Err ==> final(self).log@ == old(self).log@ && final(self).failed@,
     { unimplemented!() }
 }
 impl TcpStream {
@@ -87,16 +91,18 @@ pub open spec fn framed(orig: Seq<u8>, fin: Seq<u8>, cut: bool) -> bool {
 }
 """
 
-UDP_CONTRACT = """    requires old(bytes)@.len() >= 12, // [C09:reply_is_a_complete_message]
+def _udp_contract(target):
+    return f"""    requires old(bytes)@.len() >= 12, // [C09:reply_is_a_complete_message]
     ensures
         framed(old(bytes)@, final(bytes)@, old(bytes)@.len() > 512), // [C09:tc_set_exactly_when_cut_short]
-        r is Ok ==> udp_sent(sock, final(bytes)@.take(if old(bytes)@.len() > 512 { 512 } else { old(bytes)@.len() as int })), // [C09:udp_sends_the_first_512_bytes]"""
+        r is Ok ==> final(sock).failed@ == old(sock).failed@ && final(sock).log@ == old(sock).log@.push((final(bytes)@.take(if old(bytes)@.len() > 512 {{ 512 }} else {{ old(bytes)@.len() as int }}), {target})), // [C09:udp_sends_the_first_512_bytes_as_one_datagram_to_the_given_peer]
+        r is Err ==> final(sock).failed@ && final(sock).log@ == old(sock).log@, // [C09:a_failed_udp_send_sends_nothing]"""
 
 SPECS = {
-    "send_udp_bytes": {"props": ["C09"], "contract": UDP_CONTRACT, "entry": "proof { lemma_tc_bits(bytes@[2]); }",
-                       "anchors": [{"after": "sock.send(bytes).await?;", "at": "before", "proof": "assert(bytes@.take(bytes@.len() as int) =~= bytes@);"}]},
-    "send_udp_bytes_to": {"props": ["C09"], "contract": UDP_CONTRACT, "entry": "proof { lemma_tc_bits(bytes@[2]); }",
-                          "anchors": [{"after": "sock.send_to(bytes, target).await?;", "at": "before", "proof": "assert(bytes@.take(bytes@.len() as int) =~= bytes@);"}]},
+    "send_udp_bytes": {"props": ["C09"], "contract": _udp_contract("None::<SocketAddr>"), "entry": "proof { lemma_tc_bits(bytes@[2]); }",
+                       "anchors": [{"after": "Ok(())", "nth": -1, "at": "before", "proof": "assert(bytes@.take(bytes@.len() as int) =~= bytes@);"}]},
+    "send_udp_bytes_to": {"props": ["C09"], "contract": _udp_contract("Some(target)"), "entry": "proof { lemma_tc_bits(bytes@[2]); }",
+                          "anchors": [{"after": "Ok(())", "nth": -1, "at": "before", "proof": "assert(bytes@.take(bytes@.len() as int) =~= bytes@);"}]},
     "send_tcp_bytes": {"props": ["C09"], "rewrites": ["R2c"],
         "contract": """    requires old(bytes)@.len() >= 12, // [C09:reply_is_a_complete_message]
     ensures
@@ -200,7 +206,36 @@ impl Message {
         ensures r is Ok ==> bmv(&r->Ok_0).len() >= 12 && bmv(&r->Ok_0)[0] == (self.header.id / 256) as u8 && bmv(&r->Ok_0)[1] == (self.header.id % 256) as u8
                 && bmv(&r->Ok_0)[2] == header_flags1(self.header) && bmv(&r->Ok_0)[3] == header_flags2(self.header),
             self.questions@.len() <= 0xffff && self.answers@.len() == 0 && self.authority@.len() == 0 && self.additional@.len() == 0 ==> r is Ok,
+            r is Ok <==> serialisable(*self),
     { unimplemented!() }
+}
+// R9: the channel on which a task hands its finished reply to the UDP sender loop (tokio mpsc::Sender), recorded; the Prometheus timer
+pub struct Timer { t: u8 }
+#[verifier::external_body]
+fn shim_start_timer() -> Timer { unimplemented!() }
+pub struct SendError { e: u8 }
+pub struct ReplySender { pub log: Ghost<Seq<(Message, SocketAddr)>>, pub closed: Ghost<bool> }
+impl ReplySender {
+    #[verifier::external_body]
+    pub async fn send(&mut self, v: (Message, SocketAddr, Timer)) -> (r: Result<(), SendError>)
+        ensures r is Ok ==> final(self).log@ == old(self).log@.push((v.0, v.1)) && final(self).closed@ == old(self).closed@,
+            r is Err ==> final(self).log@ == old(self).log@ && final(self).closed@,
+    { unimplemented!() }
+}
+// the reply queued for a datagram: its ID, QR set, not truncated; a datagram flagged as a response is answered with FORMERR at most
+pub open spec fn reply_for(m: Message, b: Seq<u8>) -> bool {
+    &&& b.len() >= 2 &&& m.header.id == be16(b[0], b[1]) &&& m.header.is_response &&& !m.header.is_truncated
+    &&& (b.len() >= 12 && b[2] & 0x80 != 0 ==> m.header.rcode == Rcode::FormatError)
+}
+// the message can be encoded (names compressible, counts within 16 bits): decided by Message::to_octets (unit wire_codec)
+pub uninterp spec fn serialisable(m: Message) -> bool;
+// what one reply looks like on the UDP socket: one datagram to the asker's address, a whole header at least and 512 octets at most,
+// starting with the reply's ID, QR as in the reply, TC set exactly when the reply had to be cut
+pub open spec fn udp_reply_ok(d: (Seq<u8>, Option<SocketAddr>), m: Message, peer: SocketAddr) -> bool {
+    &&& d.1 == Some(peer) &&& 12 <= d.0.len() <= 512
+    &&& be16(d.0[0], d.0[1]) == m.header.id
+    &&& (d.0[2] & 0x80 != 0) == m.header.is_response
+    &&& d.0[3] & 0x0f == spec_rcode_to(m.header.rcode) & 0x0f
 }
 // what one reply looks like on a TCP connection: a two-octet big-endian length, then exactly that many octets (at least a header),
 // which start with the given ID and have QR set
@@ -316,6 +351,37 @@ MAIN_SPECS = {
         assert(post[p + 2] == fin[0] && post[p + 3] == fin[1] && post[p + 4] == fin[2] && post[p + 5] == fin[3]);
     }
 }"""}]},
+    "udp_reply__": {"props": ["C09"], "ret": "fin",
+        "contract": """    requires !sock__.failed@,
+    ensures
+        fin.log@ == sock__.log@ || (fin.log@.len() == sock__.log@.len() + 1 && fin.log@.drop_last() == sock__.log@
+            && udp_reply_ok(fin.log@.last(), message, peer)), // [C09:udp_at_most_one_datagram_per_reply_to_the_askers_address_with_the_replys_id_and_flags]
+        serialisable(message) && !fin.failed@ ==> fin.log@.len() == sock__.log@.len() + 1, // [C09:udp_a_reply_that_serialises_is_sent]""",
+        "entry": "let mut socket = sock__; // R45: the captured socket, mutable so that the stand-in can record (R52)\n" + BU,
+        "anchors": [
+            {"after_re": r"if let Err\(error\) =\s*send_udp_bytes_to\(", "at": "before", "proof": "let ghost orig__ = bmv(&serialised);"},
+            {"after_re": r"send_udp_bytes_to\(&socket, peer, &mut serialised\)\s*\.await\s*\{[^}]*\}", "proof": """proof {
+    let fin = bmv(&serialised);
+    lemma_wire_qr_rcode(message.header, fin[2]);
+    lemma_be16_div_mod(message.header.id);
+    if !socket.failed@ {
+        let n = if orig__.len() > 512 { 512 } else { orig__.len() as int };
+        let d = socket.log@.last();
+        assert(d.0 == fin.take(n));
+        assert(d.0[0] == fin[0] && d.0[1] == fin[1] && d.0[2] == fin[2] && d.0[3] == fin[3]);
+        assert(socket.log@.drop_last() =~= sock__.log@);
+    }
+}"""}]},
+    "udp_request__": {"props": ["C09"], "ret": "fin",
+        "contract": """    requires !reply__.closed@, bmv(&bytes).len() <= 0xffff, args.upstream_dns_port == configured_port(), args.forward_address is Some ==> args.forward_address->Some_0 == configured_forwarder(), forwarding_mode() == (args.forward_address is Some),
+    ensures
+        fin.log@ == reply__.log@ || (fin.log@.len() == reply__.log@.len() + 1 && fin.log@.drop_last() == reply__.log@
+            && fin.log@.last().1 == peer && reply_for(fin.log@.last().0, bmv(&bytes))), // [C09:udp_at_most_one_reply_is_queued_per_datagram_addressed_to_its_sender_with_its_id]
+        bmv(&bytes).len() < 2 ==> fin.log@ == reply__.log@, // [C09:no_reply_to_a_message_too_short_for_an_id]
+        !fin.closed@ && bmv(&bytes).len() >= 2 && !(bmv(&bytes).len() >= 12 && bmv(&bytes)[2] & 0x80 != 0)
+            ==> fin.log@.len() == reply__.log@.len() + 1, // [C09:udp_every_datagram_with_an_id_that_is_not_a_response_gets_one_reply_queued]""",
+        "entry": "let mut reply = reply__; // R45: the captured sender, mutable so that the stand-in can record (R52)\n" + BU,
+        "anchors": [{"after_re": r"(?<=\})\s*\}\s*reply\s*\}\s*$", "at": "before", "proof": "proof { if !reply.closed@ { assert(reply.log@.drop_last() =~= reply__.log@); } }"}]},
     "handle_raw_message": {"props": ["C09"],
         "contract": """    requires buf@.len() <= 0xffff, args.upstream_dns_port == configured_port(), args.forward_address is Some ==> args.forward_address->Some_0 == configured_forwarder(), forwarding_mode() == (args.forward_address is Some),
     ensures
@@ -352,7 +418,7 @@ def build(G):
     specs = {k: dict(v) for k, v in SPECS.items()}
     io = ("R9", r"io::Error", "IoError")
     for k in ("send_udp_bytes", "send_udp_bytes_to", "send_tcp_bytes"):
-        specs[k]["header_rewrites"] = [io]
+        specs[k]["header_rewrites"] = [io, ("R52", r"sock: &UdpSocket", "sock: &mut UdpSocket")]
         specs[k]["rewrites"] = list(specs[k].get("rewrites", [])) + [("R28", r"if bytes\.len\(\) < 12 \{\s*panic!\(\"expected complete message\"\);\s*\}", "if bytes.len() < 12 { shim_panic_incomplete(); }")]
     G.raw("""// R28: `panic!("expected complete message")` -> a call whose precondition is `false` (the panic must be unreachable)
 #[verifier::external_body]
@@ -387,6 +453,14 @@ fn shim_panic_incomplete() requires false, // [C09:server_never_panics_on_a_shor
     G.top_fn(M, "handle_raw_message", ms)
     ms["tcp_connection__"]["rewrites"] = [("R29", _r29), ("R29", r"\n\s*let response_timer = DNS_[A-Z_]+[^;]*;", "\n\n\n"), ("R29", r"\n\s*response_timer\.observe_duration\(\);", "\n"),
         ("R16", r"id\.map\(Message::make_format_error_response\)", "match id { Some(id) => Some(Message::make_format_error_response(id)), None => None }")]
+    # R45: the block listen_udp_task hands to tokio::spawn for each datagram
+    ms["udp_request__"]["rewrites"] = [("R29", r"let response_timer = DNS_RESPONSE_TIME_SECONDS\s*\.with_label_values\(&\[\"udp\"\]\)\s*\.start_timer\(\);", lambda m: "let response_timer = shim_start_timer();" + "\n" * m.group(0).count("\n")),
+        ("R30", r"=> tracing::\w+!\((?:[^()]|\([^()]*\))*\)", "=> ()")]
+    G.block_fn(M, "listen_udp_task", r"tokio::spawn\(async move \{", "async fn udp_request__(args: ListenArgs, bytes: BytesMut, reply__: ReplySender, peer: SocketAddr) -> ReplySender", "udp_request__", ms, tail="reply ")
+    # R45: the arm of listen_udp_task's select! that sends a finished reply, read as a function over what it captures
+    ms["udp_reply__"]["rewrites"] = [("R29", _r29), ("R29", r"\n\s*response_timer\.observe_duration\(\);", "\n"),
+        ("R52", r"send_udp_bytes_to\(&socket,", "send_udp_bytes_to(&mut socket,")]
+    G.block_fn(M, "listen_udp_task", r"Some\(\(message, peer, response_timer\)\) = rx\.recv\(\) => \{", "async fn udp_reply__(sock__: UdpSocket, message: Message, peer: SocketAddr) -> UdpSocket", "udp_reply__", ms, tail="socket ")
     # R45: the block listen_tcp_task hands to tokio::spawn for each accepted connection, read as a function over what it captures
     G.block_fn(M, "listen_tcp_task", r"tokio::spawn\(async move \{", "async fn tcp_connection__(args: ListenArgs, conn__: TcpStream, peer: SocketAddr) -> TcpStream", "tcp_connection__", ms, tail="stream ")
     end(G)
@@ -411,6 +485,10 @@ CANARIES = [
     {"name": "tcp_partial_id_little_endian", "file": NET, "old": "                    Err(err) => {\n                        let id = if bytes.len() >= 2 {\n                            Some(u16::from_be_bytes([bytes[0], bytes[1]]))", "new": "                    Err(err) => {\n                        let id = if bytes.len() >= 2 {\n                            Some(u16::from_be_bytes([bytes[1], bytes[0]]))"},
     {"name": "tcp_short_message_passed_on_as_complete", "file": NET, "old": "            while bytes.len() < expected {", "new": "            while bytes.len() + 1 < expected {"},
     {"name": "tcp_no_formerr_for_a_short_message", "file": MAIN, "old": "                                TcpError::TooShort { id, .. } => id,", "new": "                                TcpError::TooShort { .. } => None,"},
+    {"name": "udp_reply_sent_twice", "file": MAIN, "old": "                        if let Err(error) = send_udp_bytes_to(&socket, peer, &mut serialised).await\n                        {", "new": "                        let _ = send_udp_bytes_to(&socket, peer, &mut serialised).await;\n                        if let Err(error) = send_udp_bytes_to(&socket, peer, &mut serialised).await\n                        {"},
+    {"name": "udp_reply_only_when_short", "file": MAIN, "old": "                        if let Err(error) = send_udp_bytes_to(&socket, peer, &mut serialised).await\n                        {\n                            tracing::debug!(?peer, ?error, \"UDP send error\");\n                        }\n", "new": "                        if serialised.len() <= 512 {\n                        if let Err(error) = send_udp_bytes_to(&socket, peer, &mut serialised).await\n                        {\n                            tracing::debug!(?peer, ?error, \"UDP send error\");\n                        }\n                        }\n"},
+    {"name": "udp_formerr_replies_not_queued", "file": MAIN, "old": "                        match reply.send((response_message, peer, response_timer)).await {\n                            Ok(_) => (),\n                            Err(error) => tracing::debug!(?peer, ?error, \"UDP send error\")\n                        }", "new": "                        if response_message.header.rcode != Rcode::FormatError {\n                        match reply.send((response_message, peer, response_timer)).await {\n                            Ok(_) => (),\n                            Err(error) => tracing::debug!(?peer, ?error, \"UDP send error\")\n                        }\n                        }"},
+    {"name": "udp_reply_goes_to_the_connected_peer", "file": NET, "old": "        sock.send_to(bytes, target).await?;", "new": "        sock.send(bytes).await?;"},
     {"name": "tcp_reply_sent_twice", "file": MAIN, "old": "                                if let Err(error) =\n                                    send_tcp_bytes(&mut stream, &mut serialised).await\n                                {", "new": "                                let _ = send_tcp_bytes(&mut stream, &mut serialised).await;\n                                if let Err(error) =\n                                    send_tcp_bytes(&mut stream, &mut serialised).await\n                                {"},
     {"name": "queries_with_aa_set_dropped", "file": MAIN, "old": "            if msg.header.is_response {", "new": "            if msg.header.is_response || msg.header.is_authoritative {"},
     {"name": "response_drops_rd", "file": TYPES, "old": "                recursion_desired: self.header.recursion_desired,", "new": "                recursion_desired: false,"},
